@@ -830,6 +830,29 @@ func runC04(w *W) {
 		run("EXPLAIN AST "+s+" FORMAT TSV", "utility-explain-format:"+itoa(i))
 	}
 
+	// (9b) deep trees: the EXPLAIN of these statements is several hundred levels deep (indentation tables, caches and
+	// counters with a size limit show up only here); each is also wrapped in the nesting contexts
+	for _, depth := range []int{40, 130, 270, 520} {
+		chain := "1"
+		for i := 0; i < depth; i++ {
+			chain += " - 1"
+		}
+		calls, parens, subq, arr := "x", "1", "SELECT 1", "1"
+		for i := 0; i < depth; i++ {
+			calls = "f(" + calls + ")"
+			parens = "(" + parens + " + 1)"
+			arr = "[" + arr + "]"
+		}
+		for i := 0; i < depth/7+1; i++ {
+			subq = "SELECT * FROM (" + subq + ")"
+		}
+		for _, e := range []string{"SELECT " + chain, "SELECT " + calls, "SELECT " + parens, subq, "SELECT " + arr, "SELECT a FROM t WHERE " + calls + " AND " + chain} {
+			run(e, fmt.Sprintf("deep:%d", depth))
+			run("CREATE VIEW v AS "+e, fmt.Sprintf("deep-view:%d", depth))
+			run("EXPLAIN AST "+e, fmt.Sprintf("deep-explain:%d", depth))
+		}
+	}
+
 	// (10) random statements of the whole grammar (createTable/alter/insert/utility/select), with layout variants
 	nGen := w.pickN(20000, 400000)
 	for k := 0; k < nGen; k++ {
